@@ -367,3 +367,8 @@ def _zernike_opd(ct, tier, seed):
 
 
 contract('C10.zernike_opd', ['optiland/wavefront.py:ZernikeOPD.__init__', ZK + ':ZernikeFit.__init__'], ['C10'], custom=_zernike_opd)(lambda c: None)
+
+
+# concrete inputs found by the defect-hunting sub-agents (bounded replay, see contracts/hunt.py)
+from . import hunt as _hunt  # noqa: E402
+_hunt.register('C10')
